@@ -99,9 +99,9 @@ func nonNegativeByContract(info *types.Info, e ast.Expr) bool {
 }
 
 // ruleSignConv: R-SIGN-CONV.
-func ruleSignConv(c *Ctx, r *Report, scope func(string) bool, floor int) {
+func ruleSignConv(c *Ctx, r *Report, fs []*FuncInfo, floor int) {
 	r.Rule("R-SIGN-CONV", "no integer conversion that can change the value's sign/magnitude (signed↔unsigned at 64 bits) is applied to a runtime value without a dominating sign/range test", floor)
-	for _, f := range c.funcsInScope(scope, libPkgs) {
+	for _, f := range fs {
 		info := f.Info()
 		n := 0
 		ast.Inspect(f.Decl.Body, func(x ast.Node) bool {
@@ -160,9 +160,9 @@ func ruleSignConv(c *Ctx, r *Report, scope func(string) bool, floor int) {
 }
 
 // ruleByteRune: R-BYTE-RUNE — a byte indexed out of a string reinterpreted as a rune.
-func ruleByteRune(c *Ctx, r *Report, scope func(string) bool) {
+func ruleByteRune(c *Ctx, r *Report, fs []*FuncInfo) {
 	r.Rule("R-BYTE-RUNE", "string-processing code in scope never reinterprets a single byte of a string as a rune (rune(s[i])) and never compares a byte offset with a rune count", 1)
-	for _, f := range c.funcsInScope(scope, libPkgs) {
+	for _, f := range fs {
 		info := f.Info()
 		bad := 0
 		ast.Inspect(f.Decl.Body, func(x ast.Node) bool {
@@ -466,9 +466,9 @@ func freshExpr(f *FuncInfo, e ast.Expr, self types.Object, depth int) bool {
 // ruleAppendAlias flags append(X, …) where X is not a fresh local and the result is not
 // stored back into X itself: the append may write into the backing array that X's owner
 // (a caller's message, a tree, another result) still uses.
-func ruleAppendAlias(c *Ctx, r *Report, scope func(string) bool, floor int) {
+func ruleAppendAlias(c *Ctx, r *Report, fs []*FuncInfo, floor int) {
 	r.Rule("R-APPEND-ALIAS", "append is only applied to a slice the function owns (fresh local) or grows a slice in place (x = append(x, …)); appending to a parameter-/field-derived slice into a different destination can overwrite the owner's spare capacity and shares its backing array", floor)
-	for _, f := range c.funcsInScope(scope, libPkgs) {
+	for _, f := range fs {
 		info := f.Info()
 		pm := c.parentMap(f.File)
 		n := 0
@@ -569,9 +569,9 @@ func exprKey(e ast.Expr) string {
 
 // ruleOptsForward: a function that receives variadic options of type T forwards them to every
 // callee (in this module) that takes variadic options of the same type T.
-func ruleOptsForward(c *Ctx, r *Report, scope func(string) bool, floor int) {
+func ruleOptsForward(c *Ctx, r *Report, fs []*FuncInfo, floor int) {
 	r.Rule("R-OPTS-FORWARD", "a function that receives variadic options forwards them (opts...) to every module callee taking options of the same type; a dropped opts silently resets behaviour below that call", floor)
-	for _, f := range c.funcsInScope(scope, libPkgs) {
+	for _, f := range fs {
 		sig := f.Obj.Type().(*types.Signature)
 		if !sig.Variadic() {
 			continue
@@ -657,4 +657,255 @@ func ruleLengthUnits(c *Ctx, r *Report) {
 				fmt.Sprintf("%s passes a length measured in %q units to lengthOk, RFC 7950 counts %s: values with multi-byte characters are wrongly accepted/rejected", w.fn, u, w.what))
 		}
 	}
+}
+
+// ---- R-PARAM-STORE ---------------------------------------------------------------
+
+// sharedInputType: named types that are inputs shared with the caller (never owned by the
+// library): gNMI/protobuf messages, goyang schema nodes, ygot/ytypes option and schema structs.
+func sharedInputType(t types.Type) string {
+	for {
+		switch x := t.(type) {
+		case *types.Pointer:
+			t = x.Elem()
+			continue
+		case *types.Slice:
+			t = x.Elem()
+			continue
+		case *types.Map:
+			t = x.Elem()
+			continue
+		}
+		break
+	}
+	n := namedTypeOf(t)
+	switch {
+	case strings.HasPrefix(n, "github.com/openconfig/gnmi/proto/"):
+		return n
+	case strings.HasPrefix(n, "github.com/openconfig/goyang/pkg/yang."):
+		return n
+	case n == P("ygot")+".RFC7951JSONConfig", n == P("ygot")+".EmitJSONConfig", n == P("ygot")+".GNMINotificationsConfig",
+		n == P("ytypes")+".Schema", n == P("ytypes")+".LeafrefOptions", n == P("ygot")+".DiffPathOpt":
+		return n
+	}
+	return ""
+}
+
+// ruleParamStore: no function in scope assigns through a parameter of shared-input type.
+func ruleParamStore(c *Ctx, r *Report, fs []*FuncInfo, floor int) {
+	r.Rule("R-PARAM-STORE", "no library function stores into (a field, element or pointee of) a parameter whose type is a shared input — gNMI/protobuf messages, goyang schema nodes, option/config/schema structs; such inputs are shared between calls and goroutines", floor)
+	for _, f := range fs {
+		info := f.Info()
+		// parameters (incl. receiver) of shared-input type
+		shared := map[types.Object]string{}
+		collect := func(fl *ast.FieldList) {
+			if fl == nil {
+				return
+			}
+			for _, fld := range fl.List {
+				for _, n := range fld.Names {
+					if o := info.ObjectOf(n); o != nil {
+						if s := sharedInputType(o.Type()); s != "" {
+							shared[o] = s
+						}
+					}
+				}
+			}
+		}
+		collect(f.Decl.Recv)
+		collect(f.Decl.Type.Params)
+		if len(shared) == 0 {
+			continue
+		}
+		bad := 0
+		ast.Inspect(f.Decl.Body, func(x ast.Node) bool {
+			var lhss []ast.Expr
+			switch s := x.(type) {
+			case *ast.AssignStmt:
+				lhss = s.Lhs
+			case *ast.IncDecStmt:
+				lhss = []ast.Expr{s.X}
+			default:
+				return true
+			}
+			for _, l := range lhss {
+				l = ast.Unparen(l)
+				switch l.(type) {
+				case *ast.SelectorExpr, *ast.IndexExpr, *ast.StarExpr:
+				default:
+					continue
+				}
+				rootObj := storeRoot(f, l, 0)
+				if rootObj == nil {
+					continue
+				}
+				if ty, ok := shared[rootObj]; ok {
+					if why := builderParam(c, f, rootObj, 0); why != "" {
+						r.OK(fmt.Sprintf("%s:builder-param(%s)", f.Name, rootObj.Name()), c.Pos(l.Pos()), why)
+						continue
+					}
+					bad++
+					r.Bad(fmt.Sprintf("%s:store#%d(%s)", f.Name, bad, exprKey(l)), c.Pos(l.Pos()),
+						fmt.Sprintf("%s assigns to %s, which is reached from parameter %s of shared-input type %s: the caller's value is modified", f.Name, types.ExprString(l), rootObj.Name(), short(ty)))
+				}
+			}
+			return true
+		})
+		if bad == 0 {
+			r.OK(f.Name+":no-store-through-shared-param", c.Pos(f.Decl.Pos()), fmt.Sprintf("%d shared-input parameter(s), none stored through", len(shared)))
+		}
+	}
+}
+
+// storeRoot finds the parameter object an lvalue is rooted at, following selectors, indexing,
+// dereferences, getter calls and local aliases (x := p.F; x.G = …). Fresh locals give nil.
+func storeRoot(f *FuncInfo, e ast.Expr, depth int) types.Object {
+	info := f.Info()
+	e = ast.Unparen(e)
+	if depth > 8 {
+		return nil
+	}
+	switch x := e.(type) {
+	case *ast.Ident:
+		obj := info.ObjectOf(x)
+		if obj == nil {
+			return nil
+		}
+		if rootParamOfObj(f, obj) {
+			return obj
+		}
+		// local alias: every definition must be inspected; value copies of structs are not aliases.
+		if _, isPtrLike := obj.Type().Underlying().(*types.Struct); isPtrLike {
+			return nil
+		}
+		var res types.Object
+		ast.Inspect(f.Decl.Body, func(n ast.Node) bool {
+			switch s := n.(type) {
+			case *ast.AssignStmt:
+				for i, l := range s.Lhs {
+					if id, ok := l.(*ast.Ident); ok && info.ObjectOf(id) == obj && len(s.Rhs) == len(s.Lhs) {
+						if ro := storeRoot(f, s.Rhs[i], depth+1); ro != nil {
+							res = ro
+						}
+					}
+				}
+			case *ast.RangeStmt:
+				if s.Value != nil && ObjOf(info, s.Value) == obj {
+					if ro := storeRoot(f, s.X, depth+1); ro != nil {
+						res = ro
+					}
+				}
+			}
+			return true
+		})
+		return res
+	case *ast.SelectorExpr:
+		if _, isPkg := info.Uses[identOf(x.X)].(*types.PkgName); isPkg {
+			return nil
+		}
+		return storeRoot(f, x.X, depth+1)
+	case *ast.IndexExpr:
+		return storeRoot(f, x.X, depth+1)
+	case *ast.StarExpr:
+		return storeRoot(f, x.X, depth+1)
+	case *ast.SliceExpr:
+		return storeRoot(f, x.X, depth+1)
+	case *ast.UnaryExpr:
+		if x.Op == token.AND {
+			return storeRoot(f, x.X, depth+1)
+		}
+	case *ast.CallExpr:
+		// protobuf-style getter on a param: p.GetX() aliases p's field.
+		if sel, ok := x.Fun.(*ast.SelectorExpr); ok {
+			if _, isMethod := info.Selections[sel]; isMethod && strings.HasPrefix(sel.Sel.Name, "Get") {
+				return storeRoot(f, sel.X, depth+1)
+			}
+		}
+	case *ast.TypeAssertExpr:
+		return storeRoot(f, x.X, depth+1)
+	}
+	return nil
+}
+
+func identOf(e ast.Expr) *ast.Ident {
+	id, _ := ast.Unparen(e).(*ast.Ident)
+	return id
+}
+
+// builderParam: parameter obj of f is a value under construction — every call site of f in the
+// module passes a value that is fresh in the caller (composite literal, &T{}, new, call result,
+// proto.Clone) or the caller's own builder parameter. Returns the reason, or "".
+func builderParam(c *Ctx, f *FuncInfo, obj types.Object, depth int) string {
+	if depth > 3 || f.Obj == nil {
+		return ""
+	}
+	idx := paramIndex(f, obj)
+	if idx < 0 {
+		return ""
+	}
+	sites, fresh := 0, 0
+	for _, g := range c.funcsInScope(func(string) bool { return true }, append(append([]string{}, libPkgs...), genPkgs...)) {
+		ginfo := g.Info()
+		ast.Inspect(g.Decl.Body, func(y ast.Node) bool {
+			cc, ok := y.(*ast.CallExpr)
+			if !ok {
+				return true
+			}
+			cal := Callee(ginfo, cc)
+			if cal == nil || cal.Origin() != f.Obj || idx >= len(cc.Args) {
+				return true
+			}
+			sites++
+			arg := ast.Unparen(cc.Args[idx])
+			switch {
+			case storeRoot(g, arg, 0) == nil:
+				fresh++ // not rooted at any parameter of the caller: local/fresh value
+			default:
+				ro := storeRoot(g, arg, 0)
+				if g.Obj == f.Obj && ro == obj {
+					fresh++ // recursion on the same parameter
+				} else if builderParam(c, g, ro, depth+1) != "" {
+					fresh++
+				}
+			}
+			return true
+		})
+	}
+	if sites > 0 && sites == fresh {
+		return fmt.Sprintf("value under construction: all %d call sites pass a value that is local to the caller", sites)
+	}
+	return ""
+}
+
+// anchored lists library functions declared in the property's anchor files (+ extra files).
+func (c *Ctx) anchored(prop string, extra ...string) []*FuncInfo {
+	return c.funcsInScope(anchorScope(prop, extra...), libPkgs)
+}
+
+// entryReach lists functions reachable through static calls from the named entries
+// ("pkgrel.Func"), restricted to library packages.
+func (c *Ctx) entryReach(r *Report, entries ...string) []*FuncInfo {
+	return c.entryReachCut(r, nil, entries...)
+}
+
+func (c *Ctx) entryReachCut(r *Report, cut func(*FuncInfo) bool, entries ...string) []*FuncInfo {
+	var roots []*FuncInfo
+	for _, e := range entries {
+		i := strings.LastIndex(e, ":")
+		f := c.MustFunc(r, e[:i], e[i+1:])
+		if f != nil {
+			roots = append(roots, f)
+		}
+	}
+	lib := map[string]bool{}
+	for _, p := range libPkgs {
+		lib[P(p)] = true
+	}
+	var out []*FuncInfo
+	for _, f := range c.astReachCut(cut, roots...) {
+		if lib[f.Pkg.PkgPath] {
+			out = append(out, f)
+		}
+	}
+	return out
 }
